@@ -203,43 +203,55 @@ Proof.
     [apply v_string|apply v_boolean|apply v_date_time|apply v_float|apply v_integer]; exact H.
 Qed.
 
-Lemma til_tok t a : val_tok t a -> all_tok t -> til CS anyf t t.
+Lemma qt_tok t a : val_tok t a -> all_tok t -> qt CS anyf t.
 Proof.
   intros Hv Ht. destruct (val_tok_head t a Hv) as (b & t' & -> & Hb).
-  destruct (vhead_facts b Hb) as (Hw & _). apply til_plain; [apply all_tok_plain, Ht|].
+  destruct (vhead_facts b Hb) as (Hw & _). apply qt_plain; [apply all_tok_plain, Ht|].
   apply tokb_blank; [unfold all_tok in Ht; cbn [forallb] in Ht; apply andb_true_iff in Ht as [Ht _]; exact Ht|].
   intros ->. discriminate Hw.
 Qed.
 
-Theorem til_scalar t a : scalar_text t a -> til CS qstop t t.
+Lemma til_tok t a : val_tok t a -> all_tok t -> til CS anyf t t.
+Proof. intros Hv Ht. apply qt_til, (qt_tok t a Hv Ht). Qed.
+
+Theorem qt_scalar t a : scalar_text t a -> qt CS qstop t.
 Proof.
   intro H. pose proof (scalar_val t a H) as Hv.
   destruct H as [t0 s H|t0 b H|t0 d H|t0 f H|t0 z H].
-  - apply (til_string t0 s H).
-  - apply til_any, (til_tok _ _ Hv), (boolean_all_tok _ _ H).
-  - apply til_any, (til_tok _ _ Hv), (date_time_all_tok _ _ H).
-  - apply til_any, (til_tok _ _ Hv), (float_all_tok _ _ H).
-  - apply til_any, (til_tok _ _ Hv), (integer_all_tok _ _ H).
+  - apply (qt_string t0 s H).
+  - apply qt_any, (qt_tok _ _ Hv), (boolean_all_tok _ _ H).
+  - apply qt_any, (qt_tok _ _ Hv), (date_time_all_tok _ _ H).
+  - apply qt_any, (qt_tok _ _ Hv), (float_all_tok _ _ H).
+  - apply qt_any, (qt_tok _ _ Hv), (integer_all_tok _ _ H).
 Qed.
 
+Theorem til_scalar t a : scalar_text t a -> til CS qstop t t.
+Proof. intro H. apply qt_til, (qt_scalar t a H). Qed.
+
 (* ---- keys ------------------------------------------------------------------------------------------------ *)
-Lemma til_simple_key t k : simple_key_tok t k -> til CS qstop t t.
+Lemma qt_simple_key t k : simple_key_tok t k -> qt CS qstop t.
 Proof.
   intros [H | [H | [[Hne Ha] _]]].
-  - apply (til_basic_string t k H).
-  - apply (til_literal_string t k H).
-  - destruct t as [|b t]; [congruence|]. apply til_any.
+  - apply (qt_basic_string t k H).
+  - apply (qt_literal_string t k H).
+  - destruct t as [|b t]; [congruence|]. apply qt_any.
     assert (At : all_tok (b :: t)) by (apply (all_class unquoted_key_char); [intros c Hc; apply unquoted_tokb, Hc|exact Ha]).
-    apply til_plain; [apply all_tok_plain, At|].
+    apply qt_plain; [apply all_tok_plain, At|].
     unfold all in Ha. cbn [forallb] in Ha. apply andb_true_iff in Ha as [Hb _].
     destruct (unquoted_tokb b Hb) as [H1 H2]. apply tokb_blank; assumption.
 Qed.
 
-Lemma til_key k p : key_tok k p -> til CS qstop k k.
+Lemma til_simple_key t k : simple_key_tok t k -> til CS qstop t t.
+Proof. intro H. apply qt_til, (qt_simple_key t k H). Qed.
+
+Lemma qt_key k p : key_tok k p -> qt CS qstop k.
 Proof.
-  induction 1 as [t k H|t k w1 w2 u ks H Hw1 Hw2 _ IH]; [apply (til_simple_key t k H)|].
-  apply (til_app CS CS qstop qstop); [apply (til_simple_key t k H)| |intros r Hr; qs].
-  apply (til_app_any CB CS); [apply til_ws, Hw1|].
-  apply (til_app_any CS CS); [apply til_byte; reflexivity|].
-  apply (til_app_any CB CS); [apply til_ws, Hw2|exact IH].
+  induction 1 as [t k H|t k w1 w2 u ks H Hw1 Hw2 _ IH]; [apply (qt_simple_key t k H)|].
+  apply (qt_app CS CS qstop qstop); [apply (qt_simple_key t k H)| |intros r Hr; qs].
+  apply (qt_app_any CB CS); [apply qt_ws, Hw1|].
+  apply (qt_app_any CS CS); [apply qt_byte; reflexivity|].
+  apply (qt_app_any CB CS); [apply qt_ws, Hw2|exact IH].
 Qed.
+
+Lemma til_key k p : key_tok k p -> til CS qstop k k.
+Proof. intro H. apply qt_til, (qt_key k p H). Qed.
